@@ -8,7 +8,7 @@ Import ListNotations.
 Open Scope N_scope.
 
 Definition pact_req (a : pact) : req :=
-  match a with PA (SStart r) | PA (SStep r) | PPause r | PUnpause r => r end.
+  match a with PA (SStart r) | PA (SStep r) | PA (SStartPaused r) | PA (SUnpause r) | PPause r | PUnpause r => r end.
 
 Lemma msg_of_req fs o out m : In m (msg_of fs o out) -> wm_req m = req_of o /\ (wm_blocks m <> [] -> exists c h, o = LRecord (req_of o) c h).
 Proof.
@@ -22,10 +22,12 @@ Proof. destruct out; cbn; try contradiction. intros [<-|[]]. auto. Qed.
 Ltac mreq x := match goal with Hin : In ?m _ |- wm_req ?m = _ =>
   first [ exact (msg_rec_req (rs_fs x) _ _ _ _ _ Hin) | exact (proj1 (msg_fin (rs_fs x) _ _ _ Hin)) ] end.
 
-Lemma sim_step_req s sts a s' sts' ms :
-  sim_step s sts a = (s', sts', ms) -> forall m, In m ms -> wm_req m = match a with SStart r | SStep r => r end.
+Definition sact_req (a : sact) : req := match a with SStart r | SStep r | SStartPaused r | SUnpause r => r end.
+Definition base_act (a : sact) : bool := match a with SStart _ | SStep _ => true | _ => false end.
+Lemma sim_step_req s sts a s' sts' ms : base_act a = true ->
+  sim_step s sts a = (s', sts', ms) -> forall m, In m ms -> wm_req m = sact_req a.
 Proof.
-  destruct a as [r|r]; cbn [sim_step].
+  intro Hb. destruct a as [r|r|r|r]; try discriminate Hb; cbn [sim_step sim_start sact_req]; unfold sim_start.
   - destruct (rst_find r sts) as [x|]; [destruct (rs_started x)|]; intro E; inversion E; subst; intros m [].
   - destruct (rst_find r sts) as [x|]; [|intro E; inversion E; subst; intros m []].
     destruct (negb (rs_started x)); [intro E; inversion E; subst; intros m []|].
@@ -44,8 +46,9 @@ Qed.
 Lemma psim_step_req s sts pis a s' sts' pis' ms :
   psim_step s sts pis a = (s', sts', pis', ms) -> forall m, In m ms -> wm_req m = pact_req a.
 Proof.
-  destruct a as [[r|r]|r|r]; cbn [psim_step pact_req].
-  - destruct (sim_step s sts (SStart r)) as [[s1 sts1] ms1] eqn:Es. intro E; inversion E; subst. apply (sim_step_req _ _ _ _ _ _ Es).
+  destruct a as [[r|r|r|r]|r|r]; cbn [psim_step pact_req];
+    try (intro E; inversion E; subst; intros m []; fail).
+  - destruct (sim_step s sts (SStart r)) as [[s1 sts1] ms1] eqn:Es. intro E; inversion E; subst. exact (sim_step_req _ _ (SStart r) _ _ _ eq_refl Es).
   - destruct (aget r pis) as [pi|]; [|intro E; inversion E; subst; intros m []].
     destruct (rst_find r sts) as [x|]; [|intro E; inversion E; subst; intros m []].
     destruct (pi_paused pi || negb (rs_started x)); [intro E; inversion E; subst; intros m []|].
@@ -57,7 +60,7 @@ Proof.
         -- destruct (lstep s1 (LFinish r)) as [[s2 out2] ok2]. intro E; inversion E; subst. intros m Hin.
            apply in_app_iff in Hin as [Hin|Hin]; mreq x.
         -- intro E; inversion E; subst. intros m Hin. rewrite app_nil_r in Hin. mreq x.
-    + destruct (sim_step s sts (SStep r)) as [[s1 sts1] ms1] eqn:Es. intro E; inversion E; subst. apply (sim_step_req _ _ _ _ _ _ Es).
+    + destruct (sim_step s sts (SStep r)) as [[s1 sts1] ms1] eqn:Es. intro E; inversion E; subst. exact (sim_step_req _ _ (SStep r) _ _ _ eq_refl Es).
   - destruct (aget r pis) as [pi|]; [destruct (pi_paused pi)|]; intro E; inversion E; subst; intros m [].
   - destruct (aget r pis) as [pi|]; [|intro E; inversion E; subst; intros m []].
     destruct (rst_find r sts) as [x|]; [|intro E; inversion E; subst; intros m []].
@@ -72,8 +75,9 @@ Theorem paused_no_blocks s sts pis a s' sts' pis' ms r pi :
   forall m, In m ms -> wm_req m = r -> wm_blocks m = [].
 Proof.
   intros E Hpi Hp m Hin Hr. pose proof (psim_step_req _ _ _ _ _ _ _ _ E m Hin) as Hreq. rewrite Hr in Hreq. clear Hr.
-  destruct a as [[r0|r0]|r0|r0]; cbn [pact_req] in Hreq; subst r0; cbn [psim_step] in E.
-  - destruct (sim_step s sts (SStart r)) as [[s1 sts1] ms1] eqn:Es. inversion E; subst. cbn [sim_step] in Es.
+  destruct a as [[r0|r0|r0|r0]|r0|r0]; cbn [pact_req] in Hreq; subst r0; cbn [psim_step] in E;
+    try (inversion E; subst; contradiction).
+  - destruct (sim_step s sts (SStart r)) as [[s1 sts1] ms1] eqn:Es. inversion E; subst. cbn [sim_step] in Es. unfold sim_start in Es.
     destruct (rst_find r sts) as [x|]; [destruct (rs_started x)|]; inversion Es; subst; contradiction.
   - rewrite Hpi in E. destruct (rst_find r sts) as [x|]; [|inversion E; subst; contradiction].
     rewrite Hp in E. cbn [orb] in E. inversion E; subst. contradiction.
@@ -172,9 +176,9 @@ Section Alone.
     assert (Hget : aget r [(r, pi)] = Some pi) by (cbn; now rewrite N.eqb_refl).
     assert (Hput : forall x', rq_id (rs_q x') = r -> rst_put x' [x] = [x']) by (intros x' Hx'; cbn; now rewrite Hid, Hx', N.eqb_refl).
     assert (Haput : forall pi', aput r pi' [(r, pi)] = [(r, pi')]) by (intro pi'; cbn; now rewrite N.eqb_refl).
-    destruct a as [[r0|r0]|r0|r0]; cbn [psim_step].
+    destruct a as [[r0|r0|r0|r0]|r0|r0]; cbn [psim_step]; try exact Hsame.
     - (* start *)
-      cbn [sim_step]. destruct (N.eqb_spec r0 r) as [->|Hn].
+      cbn [sim_step]. unfold sim_start. destruct (N.eqb_spec r0 r) as [->|Hn].
       + rewrite Hfind. destruct (rs_started x) eqn:Est; [exact Hsame|].
         destruct (Hns eq_refl) as (Hne & Hfp0 & Hp0).
         set (x' := {| rs_q := rs_q x; rs_started := true; rs_steps := rs_steps x; rs_fs := rs_fs x |}).
